@@ -84,7 +84,7 @@ func newSpecDB() *SpecDB {
 
 var labelRe = regexp.MustCompile(`^([a-zA-Z][a-zA-Z0-9_\-]*):\s+(.*)$`)
 
-var keywords = map[string]bool{"func": true, "interface": true, "props": true, "requires": true, "ensures": true,
+var keywords = map[string]bool{"channel": true, "func": true, "interface": true, "props": true, "requires": true, "ensures": true,
 	"modifies": true, "nopanic": true, "inline": true, "pure": true, "loop": true, "closure": true, "invariant": true,
 	"ghost": true, "axiom": true, "note": true, "reads": true, "abstract": true, "end": true, "access": true}
 
@@ -153,7 +153,7 @@ func (db *SpecDB) parseSpecFile(path string, src []byte, pkgShort string, truste
 			return c, nil
 		}
 		switch word {
-		case "func", "interface":
+		case "func", "interface", "channel":
 			key := rest
 			var params []string
 			if i := strings.LastIndex(rest, "("); i > 0 && strings.HasSuffix(rest, ")") && !strings.HasPrefix(rest[i:], "(*") {
@@ -165,6 +165,9 @@ func (db *SpecDB) parseSpecFile(path string, src []byte, pkgShort string, truste
 				}
 			}
 			_ = pkgShort
+			if word == "channel" {
+				key = "chan:" + key
+			}
 			cur = &Contract{Key: key, Params: params, Trusted: trusted, Loops: map[int]*LoopSpec{}, Closures: map[int]*Contract{}, File: path, Line: l.no, Witnesses: map[string]string{}}
 			if old, ok := db.Contracts[key]; ok {
 				return fmt.Errorf("%s: duplicate contract for %s (first at %s:%d)", loc, key, old.File, old.Line)
